@@ -39,6 +39,15 @@ def F(x, acc = [1]):
     return acc + [x]
 def F10(a, b = 1, c = 2, d = 3, e = 4, f = 5, g = 6, h = 7, i = 8, j = 9, *rest, k = 10, **kw):
     return (a, j, k, rest, kw)
+def N3(v = (1, 2)):
+    # three iterators live at once in one frame, then a fourth in a loop statement
+    r = [(a, b, c) for a in v for b in v for c in v]
+    for d in v:
+        for e in v:
+            for f in v:
+                for g in v:
+                    r.append(d + e + f + g)
+    return len(r)
 BM = L.index
 BA = [9].append
 def K(e):
